@@ -215,6 +215,13 @@ func (w *c15World) postStep(rep *c15Report, rowKey, class, input string, obs str
 	}
 	v, detail, err := w.bystanderView()
 	if err != nil {
+		// /ping is answered (liveness above) but a registry query is not: twice in a row, a while apart
+		time.Sleep(500 * time.Millisecond)
+		if _, _, err2 := w.bystanderView(); err2 != nil && w.d.alive() {
+			rep.add(mk("violation", "not-serving", "not-serving:"+class, "nsqlookupd answers /ping but no longer answers registry queries (/lookup, /nodes) of other clients: "+err2.Error()))
+			w.d.stop()
+			return true
+		}
 		rep.add(mk("inconclusive", "observe", "observe:"+class, "could not observe the bystander: "+err.Error()))
 		return false
 	}
